@@ -34,9 +34,9 @@ CHECKS = {
    text="Every command line of up to 3 tokens (thorough: 4) over 81 tokens (all keywords and sub-commands, ten boundary numerals incl. 2^32, 2^64, i64::MIN, 65-bit hex, identifiers, punctuation) through Command::parse and every string of up to 4 (5) tokens over 24 expression tokens through expression::parser(): 0.9 M inputs in the quick tier; a panic is a violation. Ill-typed / missing DAP arguments are exercised by C12's request histories.",
    note="Only parsing is swept here: executing every parsed command at several stop states, arbitrary memory images behind typed casts and the bounds probes (hook H7) are not wired into a check yet.",
    design="3/C08(a)"),
- "C11": dict(engine="E2 e2e", category="model_checking", technique="explicit-state exploration of command histories ending in drop / detach / restart at every kind of stop",
+ "C11": dict(engine="E2 e2e (+mt attach) + E1 simk", category="model_checking", technique="explicit-state exploration of command histories ending in drop / detach / restart at every kind of stop",
    text="Histories over breakpoints, start/continue, restart, a hardware watchpoint, and the terminals drop and detach taken from every state (not started, at a breakpoint, after restart, exited) up to depth 6 (quick) / 8: after drop no /proc/<pid> entry remains; after detach the process is not stopped, an independent PTRACE_SEIZE finds text = ELF and no enabled debug-register slot, and the released process runs to the native output and exit code; after restart breakpoints hit again at the reference positions and keep their numbers; the reported exit code is the native one.",
-   note="Launched programs only: attach to an external process, quit through the console, multi-threaded programs and death by signal are not covered yet. The program sleeps 60 ms so that the released process can be inspected.",
+   note="Second part (real kernel): a two-thread program that creates a third thread 120 ms after start is started by the harness and attached to while it runs; 7 prefixes (breakpoint in worker code, at the entry of the late thread, watchpoint on a global, continue) x {detach, quit}: afterwards no task has a TracerPid or sits in a tracing stop, no task has an enabled debug-register slot, text = file, the process finishes with native output and exit code. Third part (E1): the real tracer over the simulated kernel, detach at the first/second/third stop with threads racing to breakpoints and being created, <= 3 (quick) / 5 deviations: the released process is not killed by a leftover trap, no thread stays traced, every instruction runs exactly once. Quit through the console and death by signal are not covered. One defect repaired (threads created during attach were never seized), the leftover-trap kill is a known finding.",
    design="3/C11"),
  "C15": dict(engine="E2 e2e (in-worker sweep)", category="exploration", technique="bounded-exhaustive sweep of (address, length) windows, word writes, register values and breakpoint placements against /proc/pid/mem and PTRACE_GETREGS",
    text="At two stops per program every read window (17 start offsets around a word boundary x lengths 0..17, and every (start, length) inside the last 16 bytes before each unmapped hole) is compared with /proc/pid/mem; word writes at all 8 alignments x 3 values must change exactly 8 bytes; 15 registers x 4 values are written, read back and confirmed by an independent PTRACE_GETREGS with no other register moving; with a breakpoint on every instruction the disassembly must equal the unpatched one; afterwards the program must still finish natively.",
@@ -76,7 +76,7 @@ CHECKS = {
    design="2/E3, 3/C12, App.B"),
  "C14": dict(engine="E4 pure + E2 e2e (+mt)", category="model_checking", technique="explicit-state BFS over the full reachable DR7 state space of the real register-encoding code",
    text="All 1.68M DR7 images reachable from 0 under the 48 configure/enable operations are visited; in every state the image equals an independently written Intel-SDM encoder applied to a reference slot table, and dr_enabled agrees.",
-   note="Bits 8/9 (LE/GE) are not constrained because the property does not mention them. Second part: real debug registers of every thread read by the harness after every command of an explored history over 7 watchpoint candidates (sizes 1/2/4/8, w/rw, same-address pair, one address that is 4- but not 8-byte aligned), add / remove by number or address / continue / restart, depth 8 (quick) / 10. Third part: a multi-threaded debuggee (raw clone): watchpoints set before / after the threads exist, with and without restart; DR0-3/DR7 of every task must encode exactly the watchpoint list (inheritance by new threads). Hardware never delivers data breakpoints in this VM, so 'every write stops once and reports old/new value' and scope-end removal of local watchpoints are NOT decided.",
+   note="Bits 8/9 (LE/GE) are not constrained because the property does not mention them. Second part: real debug registers of every thread read by the harness after every command of an explored history over 7 watchpoint candidates (sizes 1/2/4/8, w/rw, same-address pair, one address that is 4- but not 8-byte aligned), add / remove by number or address / continue / restart, depth 8 (quick) / 10. Third part (E1): the real Tracer + WatchpointRegistry over the simulated kernel whose threads DO take data breakpoints: watchpoints added/removed before the first resume and at stops, threads created before and after, <= 3 (quick) / 5 deviations: registers of every thread = registry at every stop, fifth/duplicate refused without side effects, every hardware hit reported exactly once (two known findings: a hit met during a group stop is absorbed; DR6 of the main thread is copied to all threads). Fourth part: a multi-threaded debuggee (raw clone): watchpoints set before / after the threads exist, with and without restart; DR0-3/DR7 of every task must encode exactly the watchpoint list (inheritance by new threads). Hardware never delivers data breakpoints in this VM, so 'every write stops once and reports old/new value' and scope-end removal of local watchpoints are NOT decided.",
    design="3/C14(a)"),
  "C17": dict(engine="E4 pure", category="model_checking", technique="explicit-state search over insert histories of the real path-suffix index with a Vec reference model",
    text="Every ordered insert sequence up to depth 2 (3 thorough) and every multiset up to depth 3 (4) over 39 '::' paths / 51 '/' paths (incl. rooted) on the real PathSearchIndex; every query of length 1-4 plus near-misses is compared with 'matches iff query components are a suffix'.",
@@ -116,7 +116,7 @@ m = {
    "add_only": True,
  },
  "engines": [
-   {"name":"E1 simk","path":"/verif/harness/src/simk.rs (+ mt.rs for the real-kernel binding, /verif/litmus for the kernel rules)","serves_properties":["C09","C10"],"kind_free_text":"the real tracer core over a simulated ptrace kernel (feature-gated verif::sys shim); deviation-bounded stateless exploration of every kernel-side choice; every execution runs the real code"},
+   {"name":"E1 simk","path":"/verif/harness/src/simk.rs (+ mt.rs for the real-kernel binding, /verif/litmus for the kernel rules)","serves_properties":["C09","C10","C11","C14"],"kind_free_text":"the real tracer core over a simulated ptrace kernel (feature-gated verif::sys shim); deviation-bounded stateless exploration of every kernel-side choice; every execution runs the real code"},
    {"name":"E3 sched","path":"/verif/harness/src/sched.rs","serves_properties":["C12"],"kind_free_text":"hand-rolled CHESS: real threads parked at feature-gated schedule points, preemption-bounded DFS, worker subprocess per subtree"},
    {"name":"E2 e2e","path":"/verif/harness/src/{e2x,e2w,isession,reftrace,dwarfref,corpus,c01}.rs","serves_properties":["C01","C02","C03","C04","C05","C06","C10","C11","C14","C15","C16","C18","C19"],"kind_free_text":"explicit-state exploration of command histories: one interactive worker process per session running the real Debugger over generated libc-free debuggees; reference single-step tracer; canonical-state deduplication"},
    {"name":"E5 dap","path":"/verif/harness/src/{dapx,dapw,c12}.rs","serves_properties":["C12","C13"],"kind_free_text":"explicit-state exploration of DAP request histories: the real DebugSession::run on a thread inside one worker process per session, in-memory transport, real debuggee; protocol monitor + reference-trace oracle"},
